@@ -12,14 +12,15 @@ static std::string g_dir; static std::string* g_digest = nullptr;
 
 #include "vtk_tok.hpp"
 using namespace vtk;
-struct CellSpec { int mesh; int type; int history; };      // history: 0 none, 1 one split (no free slot), 2 split+merge (free slots), 3 two merges (free node and face slots)
+struct CellSpec { int mesh; int type; int history; };      // history: 0 none, 1 one split (no free slot), 2 split+merge (free slots), 3 two merges (free node and face slots), 4 two merges in descending order of node ids (the free queues are filled out of order)
 struct Case { std::vector<CellSpec> cells; int xform; int writer; };   // writer 0 = mesh_writer::write, 1 = write_cell_data_file(path, cells, rebase=true)
 
 static std::vector<sc::Mesh> g_meshes;
-static const double XS[] = {1.0, -1.0, 1e-6, 1e5};
+static const int NS = 6;
+static const double XS[NS] = {1.0, -1.0, 1e-6, 1e5, 1e-42, 1e39};   // length units from far below to far above what single precision can represent
 static sc::Mesh placed(const sc::Mesh& m, int xform, int slot) { // slot separates the cells of one population
-    double s = XS[xform % 4]; std::array<double, 9> R = sc::ID3; if (s < 0) { R = {-1, 0, 0, 0, -1, 0, 0, 0, -1}; s = 1; }
-    bool mixed = xform >= 4; std::array<double, 3> t = {(mixed ? -1.75 : 0.0) + 3.0 * slot, mixed ? 0.625 : 0.0, mixed ? -2.5 : 0.0};
+    double s = XS[xform % NS]; std::array<double, 9> R = sc::ID3; if (s < 0) { R = {-1, 0, 0, 0, -1, 0, 0, 0, -1}; s = 1; }
+    bool mixed = xform >= NS; std::array<double, 3> t = {(mixed ? -1.75 : 0.0) + 3.0 * slot, mixed ? 0.625 : 0.0, mixed ? -2.5 : 0.0};
     sc::Mesh o = sc::transformed(m, R, {0, 0, 0}); for (size_t i = 0; i < o.nv(); i++) { o.pos[3*i] = (o.pos[3*i] + t[0]) * s; o.pos[3*i+1] = (o.pos[3*i+1] + t[1]) * s; o.pos[3*i+2] = (o.pos[3*i+2] + t[2]) * s; } return o; }
 
 static cell_ptr build_cell(const CellSpec& cs, int xform, int slot, unsigned id, std::vector<cell_type_param_ptr>& types) {
@@ -29,6 +30,9 @@ static cell_ptr build_cell(const CellSpec& cs, int xform, int slot, unsigned id,
     auto first_edge = [&](bool need_merge) -> std::optional<edge> { for (const edge& e : c->get_edge_set()) { edge ec = e; if (!need_merge || lmr.can_be_merged(ec, c)) return e; } return std::nullopt; };
     if (cs.history >= 1 && cs.history <= 2) { auto e = first_edge(false); edge ee = *e; edge_set es = c->get_edge_set(); lmr.split_edge(ee, c, es); }
     if (cs.history == 2) { auto e = first_edge(true); if (e) { edge ee = *e; edge_set es = c->get_edge_set(); lmr.merge_edge(ee, c, es); } }
+    if (cs.history == 4) { auto last_edge = [&]() -> std::optional<edge> { std::optional<edge> r; unsigned best = 0; for (const edge& e : c->get_edge_set()) { edge ec = e; if (std::min(e.n1(), e.n2()) >= best && std::min(e.n1(), e.n2()) > 0 && lmr.can_be_merged(ec, c)) { best = std::min(e.n1(), e.n2()); r = e; } } return r; };
+        auto lowest_edge = [&]() -> std::optional<edge> { std::optional<edge> r; unsigned best = ~0u; for (const edge& e : c->get_edge_set()) { edge ec = e; unsigned lo = std::min(e.n1(), e.n2()); if (lo > 0 && lo < best && lmr.can_be_merged(ec, c)) { best = lo; r = e; } } return r; };
+        if (auto e = last_edge()) { edge ee = *e; edge_set es = c->get_edge_set(); lmr.merge_edge(ee, c, es); } if (auto e = lowest_edge()) { edge ee = *e; edge_set es = c->get_edge_set(); lmr.merge_edge(ee, c, es); } }
     if (cs.history == 3) for (int k = 0; k < 2; k++) { auto e = first_edge(true); if (e) { edge ee = *e; edge_set es = c->get_edge_set(); lmr.merge_edge(ee, c, es); } }
     c->update_all_face_normals_and_areas(); c->area_ = c->compute_area(); c->volume_ = c->compute_volume();
     return c;
@@ -86,19 +90,19 @@ static void setup() { using namespace sc; g_meshes = {tetrahedron(), octahedron(
 static void explore(Result& R) {
     const bool th = R.args.thorough(); setup(); long cases = 0, with_free = 0;
     std::vector<Case> all;
-    int nx = 8; int nm = (int)g_meshes.size();
+    int nx = 2 * NS; int nm = (int)g_meshes.size();
     // single cells: every mesh x type x history x transform x writer
-    for (int m = 0; m < nm; m++) for (int t = 0; t < 5; t++) for (int h = 0; h < 4; h++) for (int x = 0; x < nx; x++) for (int w = 0; w < 2; w++) { if (!th && (x % 4 == 1 || x >= 6) && h != 2) continue; all.push_back({{{m, t, h}}, x, w}); }
+    for (int m = 0; m < nm; m++) for (int t = 0; t < 5; t++) for (int h = 0; h < 5; h++) for (int x = 0; x < nx; x++) for (int w = 0; w < 2; w++) { if (!th && (x % NS == 1 || (x >= NS && x % NS >= 2)) && h != 2) continue; if (h == 4 && !th && t != 0 && t != 3) continue; all.push_back({{{m, t, h}}, x, w}); }
     // pairs and triples: type combinations x a few meshes (node offsets of the second/third cell matter)
-    for (int t1 = 0; t1 < 5; t1++) for (int t2 = 0; t2 < 5; t2++) for (int h1 : {0, 2}) for (int h2 : {0, 3}) for (int x : {0, 2, 5}) for (int w = 0; w < 2; w++) all.push_back({{{1, t1, h1}, {2, t2, h2}}, x, w});
-    for (int m1 = 0; m1 < nm; m1++) for (int m2 = 0; m2 < nm; m2++) for (int m3 : {0, 3, 5}) for (int h : {0, 2}) { if (!th && (m1 + m2) % 2) continue; all.push_back({{{m1, 0, h}, {m2, 1, 0}, {m3, 3, h}}, 4, 0}); all.push_back({{{m1, 2, 0}, {m2, 4, h}, {m3, 0, 3}}, 0, 1}); }
+    for (int t1 = 0; t1 < 5; t1++) for (int t2 = 0; t2 < 5; t2++) for (int h1 : {0, 2}) for (int h2 : {0, 3}) for (int x : {0, 2, NS + 1, 4, 5}) for (int w = 0; w < 2; w++) { if (x >= 4 && x < NS && (t1 + t2) % 2) continue; all.push_back({{{1, t1, h1}, {2, t2, h2}}, x, w}); }
+    for (int m1 = 0; m1 < nm; m1++) for (int m2 = 0; m2 < nm; m2++) for (int m3 : {0, 3, 5}) for (int h : {0, 2}) { if (!th && (m1 + m2) % 2) continue; all.push_back({{{m1, 0, h}, {m2, 1, 0}, {m3, 3, h}}, NS, 0}); all.push_back({{{m1, 2, 0}, {m2, 4, h}, {m3, 0, 3}}, 0, 1}); }
     long unit = 0; for (const Case& c : all) { if (!R.args.mine(unit++)) continue; if (R.out_of_time(0.9)) { R.cap("deadline"); break; } cases++;
         std::string dg; g_digest = &dg; std::string e = run_case(c, &with_free); g_digest = nullptr; R.mix(dg + e); R.distinct_case(dg);
         if (!e.empty()) R.violation(clause_of(e) + "|" + (c.writer ? "write_cell_data_file" : "mesh_writer::write") + "|cells=" + std::to_string(c.cells.size()), e + " [" + case_json(c) + "]", "case=" + case_text(c) + "\n");
         if (cases % 400 == 1) R.sample(case_json(c)); }
     std::filesystem::remove_all(g_dir);
     R["evaluations"] = cases; R["transitions"] = cases; R["states"] = cases; R["distinct_nontrivial"] = cases; R["traces_validated_against_impl"] = cases; R["cells_written_with_free_slots"] = with_free;
-    R.strings["rule"] = "distinct_nontrivial = number of DISTINCT cell-data files written (hashed file text; cases that differ only in something the file does not record produce the same file); a case = (population of 1-3 cells: mesh, cell type, remeshing history leaving free slots or not) x coordinate transform (x1, point reflection, x1e-6, x1e5, each also shifted to mixed signs) x writer entry point; the file is checked by an independent tokenizer (every declared count against contents), read back by the real mesh_reader (cells, triangles, coordinates to %.4e, cell types) and loaded by the real simulation_initializer (initial triangulation off) whose cells must pass the mesh oracle";
+    R.strings["rule"] = "distinct_nontrivial = number of DISTINCT cell-data files written (hashed file text; cases that differ only in something the file does not record produce the same file); a case = (population of 1-3 cells: mesh, cell type, remeshing history leaving free slots or not, incl. two collapses in descending order of node ids) x coordinate transform (x1, point reflection, x1e-6, x1e5, x1e-42, x1e39, each also shifted to mixed signs) x writer entry point; the file is checked by an independent tokenizer (every declared count against contents), read back by the real mesh_reader (cells, triangles, coordinates to %.4e, cell types) and loaded by the real simulation_initializer (initial triangulation off) whose cells must pass the mesh oracle";
     R.assumptions = {"expected renumbering: nodes by rank among live nodes, triangles in slot order (what compaction does)", "coordinate tolerance half a unit in the 4th decimal of the scientific notation", "face-data file: only the geometry section counts are validated"};
 }
 static int replay(const Replay& rp, Result& R) { setup(); Case c = case_parse(rp.get("case")); std::string e1 = run_case(c), e2 = run_case(c); std::filesystem::remove_all(g_dir); if (e1 != e2) { printf("replay diverged\n"); return 0; } printf("%s\n%s\n", case_json(c).c_str(), e1.c_str()); if (!e1.empty()) { R.violation(clause_of(e1), e1, ""); return 1; } return 0; }
